@@ -42,7 +42,6 @@ CLAIMED = {
 }
 NA = {
  'C05': 'not built in the time available: encodable with this engine (two labelled symbolic random streams + reachability of a global draw) but no harness exists; not claimed rather than claimed weakly (DESIGN.md section 8)',
- 'C14': 'not built in the time available: encodable (two labelings of one partition, weights symbolic) but no harness exists; C02/C04 exercise non-contiguous labels for the evaluators only (DESIGN.md section 8)',
  'C18': 'solver-based checking does not apply: mean_first_passage_time, subgraph_centrality and eigenvector_centrality_und are LAPACK eigen-decompositions / inverses in floating point; no contract stub for eig/inv is expressible in the SMT theories available, and the degenerate-eigenspace concern has no counterpart in an exact-real model; findwalks/pagerank alone are a fragment (DESIGN.md section 8)',
  'C19': 'solver-based checking does not apply usefully: nbs_bct takes square roots of data and re-draws whole subject relabellings, so data and relabellings must be enumerated and only a threshold stays symbolic (the guidance calls this a weak target); not built (DESIGN.md section 8)',
 }
